@@ -1,1 +1,545 @@
-//! engine: ars (see DESIGN.md §4)
+//! E4 — adversarial repair search (ARS): a bounded, heuristic malicious prover.
+//!
+//! Input: the tables of an honest run (E3), a target instance (some instance cells get new
+//! values) and optional seed moves (advice cells forced to chosen values). The search tries to
+//! find an assignment of the advice cells that satisfies *every* constraint of the circuit with
+//! the target instance: it propagates each change through its copy-constraint class, collects the
+//! constraints that became violated and, for one of them, tries to solve it for each not yet
+//! changed advice cell it reads (affine solve from three evaluations; for lookups, by moving the
+//! input tuple onto a table row), depth first, with a node budget and seeded tie-breaking.
+//!
+//! A returned candidate is only a *candidate*: callers confirm it with the repository's own
+//! checker (H2) and, for small circuits, the real prover/verifier (H1) before calling it a
+//! violation. "No attack found" means: none within the stated budget from the stated targets.
+
+use std::collections::{BTreeMap, BTreeSet, HashSet};
+
+use ff::PrimeField;
+use midnight_proofs::plonk::Expression;
+use rand::seq::SliceRandom;
+use rand_chacha::ChaCha8Rng;
+
+use super::ref_eval::{CellRef, Tables};
+
+#[derive(Clone, Debug)]
+pub struct ArsBudget {
+    pub restarts: usize,
+    pub nodes_per_restart: usize,
+    /// maximal number of changed copy classes (iterative deepening goes 2,4,8,.. up to this)
+    pub max_changed: usize,
+}
+
+impl ArsBudget {
+    pub fn quick() -> Self {
+        ArsBudget {
+            restarts: 32,
+            nodes_per_restart: 2000,
+            max_changed: 24,
+        }
+    }
+    pub fn thorough() -> Self {
+        ArsBudget {
+            restarts: 256,
+            nodes_per_restart: 10_000,
+            max_changed: 48,
+        }
+    }
+}
+
+#[derive(Clone, Debug, Default)]
+pub struct ArsStats {
+    pub nodes: u64,
+    pub dead_ends_pinned: u64,
+    pub dead_ends_unsolvable: u64,
+    pub dead_ends_depth: u64,
+    pub candidates: u64,
+}
+
+pub struct Attack<F: PrimeField> {
+    /// advice cells whose value differs from the honest table
+    pub changed: BTreeMap<(usize, usize), F>,
+    pub stats: ArsStats,
+}
+
+#[derive(Clone)]
+enum Con {
+    /// index into `polys`
+    Poly(usize, usize),
+    Lookup(usize, usize),
+}
+
+struct PolyInfo<F: PrimeField> {
+    expr: Expression<F>,
+    /// `Some(selector expr)` for trash constraints: only enforced where it is non-zero
+    guard: Option<Expression<F>>,
+    adv_queries: Vec<(usize, i32)>,
+}
+
+struct LookupInfo {
+    in_queries: Vec<(usize, i32)>,
+    table_queries: Vec<(usize, i32)>,
+}
+
+pub struct Ars<'a, F: PrimeField> {
+    t: &'a mut Tables<F>,
+    polys: Vec<PolyInfo<F>>,
+    lookups: Vec<LookupInfo>,
+    /// copy class id of an advice cell and the members of each class
+    class_of: BTreeMap<CellRef, usize>,
+    classes: Vec<Vec<CellRef>>,
+    /// classes pinned by a fixed or instance member
+    pinned: Vec<Option<F>>,
+    table_sets: Vec<Option<HashSet<Vec<Vec<u8>>>>>,
+    table_rows: Vec<Vec<Vec<F>>>,
+    stats: ArsStats,
+    changed: BTreeSet<(usize, usize)>,
+    undo: Vec<((usize, usize), F)>,
+    budget_nodes: usize,
+    max_changed: usize,
+}
+
+fn adv_queries<F: PrimeField>(e: &Expression<F>) -> Vec<(usize, i32)> {
+    let out = std::cell::RefCell::new(BTreeSet::new());
+    e.evaluate(
+        &|_| (),
+        &|_| (),
+        &|_| (),
+        &|q| {
+            out.borrow_mut().insert((q.column_index(), q.rotation().0));
+        },
+        &|_| (),
+        &|_| (),
+        &|_| (),
+        &|_, _| (),
+        &|_, _| (),
+        &|_, _| (),
+    );
+    out.into_inner().into_iter().collect()
+}
+
+impl<'a, F: PrimeField> Ars<'a, F> {
+    pub fn new(t: &'a mut Tables<F>) -> Self {
+        let mut polys = vec![];
+        for g in t.cs.gates() {
+            for p in g.polynomials() {
+                polys.push(PolyInfo {
+                    expr: p.clone(),
+                    guard: None,
+                    adv_queries: adv_queries(p),
+                });
+            }
+        }
+        for tr in t.cs.trashcans() {
+            for p in tr.constraint_expressions() {
+                let mut q = adv_queries(p);
+                q.extend(adv_queries(tr.selector()));
+                q.sort();
+                q.dedup();
+                polys.push(PolyInfo {
+                    expr: p.clone(),
+                    guard: Some(tr.selector().clone()),
+                    adv_queries: q,
+                });
+            }
+        }
+        let lookups: Vec<LookupInfo> = t
+            .cs
+            .lookups()
+            .iter()
+            .map(|l| LookupInfo {
+                in_queries: l.input_expressions().iter().flat_map(adv_queries).collect(),
+                table_queries: l.table_expressions().iter().flat_map(adv_queries).collect(),
+            })
+            .collect();
+        // copy classes
+        let cc = t.copy_classes();
+        let mut class_of = BTreeMap::new();
+        let mut classes = vec![];
+        let mut pinned = vec![];
+        for (_, members) in cc {
+            let id = classes.len();
+            let mut pin = None;
+            for m in &members {
+                class_of.insert(m.clone(), id);
+                match m {
+                    CellRef::Fixed(..) | CellRef::Instance(..) => pin = Some(t.get(m)),
+                    _ => {}
+                }
+            }
+            classes.push(members);
+            pinned.push(pin);
+        }
+        let nl = lookups.len();
+        Ars {
+            t,
+            polys,
+            lookups,
+            class_of,
+            classes,
+            pinned,
+            table_sets: vec![None; nl],
+            table_rows: vec![vec![]; nl],
+            stats: ArsStats::default(),
+            changed: BTreeSet::new(),
+            undo: vec![],
+            budget_nodes: 0,
+            max_changed: 0,
+        }
+    }
+
+    fn rot(&self, row: usize, r: i32) -> usize {
+        (row as i64 + r as i64).rem_euclid(self.t.n as i64) as usize
+    }
+
+    fn set_adv(&mut self, cell: (usize, usize), v: F) {
+        let old = self.t.advice[cell.0][cell.1];
+        self.undo.push((cell, old));
+        self.t.advice[cell.0][cell.1] = v;
+        self.changed.insert(cell);
+        for (li, l) in self.lookups.iter().enumerate() {
+            if l.table_queries.iter().any(|(c, _)| *c == cell.0) {
+                self.table_sets[li] = None;
+            }
+        }
+    }
+
+    fn rollback(&mut self, mark: usize, changed_before: &BTreeSet<(usize, usize)>) {
+        while self.undo.len() > mark {
+            let (cell, old) = self.undo.pop().unwrap();
+            self.t.advice[cell.0][cell.1] = old;
+            for (li, l) in self.lookups.iter().enumerate() {
+                if l.table_queries.iter().any(|(c, _)| *c == cell.0) {
+                    self.table_sets[li] = None;
+                }
+            }
+        }
+        self.changed = changed_before.clone();
+    }
+
+    /// Sets an advice cell and everything copy-tied to it. `false` = the class is pinned to a
+    /// different value (dead end).
+    fn assign_class(&mut self, cell: (usize, usize), v: F) -> bool {
+        let cr = CellRef::Advice(cell.0, cell.1);
+        match self.class_of.get(&cr).copied() {
+            None => {
+                self.set_adv(cell, v);
+                true
+            }
+            Some(id) => {
+                if let Some(p) = self.pinned[id] {
+                    if p != v {
+                        return false;
+                    }
+                }
+                let members = self.classes[id].clone();
+                for m in members {
+                    if let CellRef::Advice(c, r) = m {
+                        if self.t.advice[c][r] != v {
+                            self.set_adv((c, r), v);
+                        } else {
+                            self.changed.insert((c, r));
+                        }
+                    }
+                }
+                true
+            }
+        }
+    }
+
+    fn ensure_table(&mut self, li: usize) {
+        if self.table_sets[li].is_some() {
+            return;
+        }
+        let l = &self.t.cs.lookups()[li];
+        let mut set = HashSet::new();
+        let mut rows = vec![];
+        for r in 0..self.t.usable_rows {
+            let vals: Vec<F> = l.table_expressions().iter().map(|e| self.t.eval(e, r)).collect();
+            let key: Vec<Vec<u8>> = vals.iter().map(|v| v.to_repr().as_ref().to_vec()).collect();
+            if set.insert(key) {
+                rows.push(vals);
+            }
+        }
+        self.table_sets[li] = Some(set);
+        self.table_rows[li] = rows;
+    }
+
+    fn poly_violated(&self, pi: usize, row: usize) -> bool {
+        let p = &self.polys[pi];
+        if let Some(g) = &p.guard {
+            if self.t.eval(g, row) == F::ZERO {
+                return false;
+            }
+            return self.t.eval(&p.expr, row) != F::ZERO;
+        }
+        if row >= self.t.usable_rows {
+            return false;
+        }
+        self.t.eval(&p.expr, row) != F::ZERO
+    }
+
+    fn lookup_violated(&mut self, li: usize, row: usize) -> bool {
+        if row >= self.t.usable_rows {
+            return false;
+        }
+        self.ensure_table(li);
+        let l = &self.t.cs.lookups()[li];
+        let key: Vec<Vec<u8>> =
+            l.input_expressions().iter().map(|e| self.t.eval(e, row).to_repr().as_ref().to_vec()).collect();
+        !self.table_sets[li].as_ref().unwrap().contains(&key)
+    }
+
+    /// Constraints that read a changed cell and are violated.
+    fn violated_near_changes(&mut self) -> Vec<Con> {
+        let mut out = vec![];
+        let mut seen = BTreeSet::new();
+        let changed: Vec<(usize, usize)> = self.changed.iter().copied().collect();
+        for (c, r) in changed {
+            for pi in 0..self.polys.len() {
+                let rots: Vec<i32> =
+                    self.polys[pi].adv_queries.iter().filter(|(qc, _)| *qc == c).map(|(_, rot)| *rot).collect();
+                for rot in rots {
+                    let row = self.rot(r, -rot);
+                    if seen.insert((0u8, pi, row)) && self.poly_violated(pi, row) {
+                        out.push(Con::Poly(pi, row));
+                    }
+                }
+            }
+            for li in 0..self.lookups.len() {
+                let rots: Vec<i32> =
+                    self.lookups[li].in_queries.iter().filter(|(qc, _)| *qc == c).map(|(_, rot)| *rot).collect();
+                for rot in rots {
+                    let row = self.rot(r, -rot);
+                    if seen.insert((1u8, li, row)) && self.lookup_violated(li, row) {
+                        out.push(Con::Lookup(li, row));
+                    }
+                }
+                if self.lookups[li].table_queries.iter().any(|(qc, _)| *qc == c) {
+                    for row in 0..self.t.usable_rows {
+                        if seen.insert((1u8, li, row)) && self.lookup_violated(li, row) {
+                            out.push(Con::Lookup(li, row));
+                        }
+                    }
+                }
+            }
+        }
+        out
+    }
+
+    /// Solves `expr(row) = target` for advice cell `cell` if the dependence is affine.
+    fn solve_affine(&mut self, expr: &Expression<F>, row: usize, cell: (usize, usize), target: F) -> Option<F> {
+        let old = self.t.advice[cell.0][cell.1];
+        let mut at = |v: F, s: &mut Self| {
+            s.t.advice[cell.0][cell.1] = v;
+            let r = s.t.eval(expr, row);
+            s.t.advice[cell.0][cell.1] = old;
+            r
+        };
+        let y0 = at(F::ZERO, self);
+        let y1 = at(F::ONE, self);
+        let y2 = at(F::ONE + F::ONE, self);
+        let slope = y1 - y0;
+        if (y2 - y1) != slope {
+            return None; // not affine in this cell
+        }
+        let inv: Option<F> = slope.invert().into();
+        let inv = inv?;
+        Some((target - y0) * inv)
+    }
+
+    fn search(&mut self, rng: &mut ChaCha8Rng, depth_changed: usize) -> bool {
+        self.stats.nodes += 1;
+        if self.stats.nodes as usize > self.budget_nodes {
+            return false;
+        }
+        let viol = self.violated_near_changes();
+        if std::env::var("MZV_ARS_DEBUG").is_ok() {
+            eprintln!("[ars] node {} changed={:?} violated={}", self.stats.nodes, self.changed, viol.iter().map(|c| match c { Con::Poly(p, r) => format!("poly{p}@{r}"), Con::Lookup(l, r) => format!("lookup{l}@{r}") }).collect::<Vec<_>>().join(","));
+        }
+        if viol.is_empty() {
+            // full check (cheap) — a candidate must satisfy everything
+            if self.t.violations(1).is_empty() {
+                self.stats.candidates += 1;
+                return true;
+            }
+            return false;
+        }
+        if self.changed.len() > depth_changed {
+            self.stats.dead_ends_depth += 1;
+            return false;
+        }
+        // pick the constraint with the fewest free cells first (most constrained)
+        let mut best: Option<(Con, Vec<(usize, usize)>)> = None;
+        for con in viol.iter().take(12) {
+            let cells: Vec<(usize, usize)> = match con {
+                Con::Poly(pi, row) => self.polys[*pi].adv_queries.iter().map(|(c, rot)| (*c, self.rot(*row, *rot))).collect(),
+                Con::Lookup(li, row) => self.lookups[*li].in_queries.iter().map(|(c, rot)| (*c, self.rot(*row, *rot))).collect(),
+            };
+            let free: Vec<(usize, usize)> = cells.into_iter().filter(|c| !self.changed.contains(c)).collect();
+            if free.is_empty() {
+                // a violated constraint with nothing left to change: dead end
+                self.stats.dead_ends_unsolvable += 1;
+                return false;
+            }
+            if best.as_ref().map(|b| free.len() < b.1.len()).unwrap_or(true) {
+                best = Some((con.clone(), free));
+            }
+        }
+        let (con, mut free) = best.unwrap();
+        free.shuffle(rng);
+        let mark = self.undo.len();
+        let changed_before = self.changed.clone();
+        match con {
+            Con::Poly(pi, row) => {
+                let expr = self.polys[pi].expr.clone();
+                for cell in free {
+                    let sol = self.solve_affine(&expr, row, cell, F::ZERO);
+                    if std::env::var("MZV_ARS_DEBUG").is_ok() {
+                        eprintln!("[ars]   poly{pi}@{row} try cell {cell:?}: solvable={}", sol.is_some());
+                    }
+                    if let Some(v) = sol {
+                        if self.assign_class(cell, v) {
+                            if self.search(rng, depth_changed) {
+                                return true;
+                            }
+                        } else {
+                            self.stats.dead_ends_pinned += 1;
+                        }
+                        self.rollback(mark, &changed_before);
+                        if self.stats.nodes as usize > self.budget_nodes {
+                            return false;
+                        }
+                    }
+                }
+                self.stats.dead_ends_unsolvable += 1;
+                false
+            }
+            Con::Lookup(li, row) => {
+                self.ensure_table(li);
+                let inputs: Vec<Expression<F>> = self.t.cs.lookups()[li].input_expressions().clone();
+                let mut rows = self.table_rows[li].clone();
+                rows.shuffle(rng);
+                for trow in rows.into_iter().take(24) {
+                    // move every input expression onto the table row by solving it for one free
+                    // cell it reads; already matching inputs are left alone
+                    let mut ok = true;
+                    for (j, e) in inputs.iter().enumerate() {
+                        if self.t.eval(e, row) == trow[j] {
+                            continue;
+                        }
+                        let cells: Vec<(usize, usize)> = adv_queries(e)
+                            .into_iter()
+                            .map(|(c, rot)| (c, self.rot(row, rot)))
+                            .filter(|c| !changed_before.contains(c))
+                            .collect();
+                        let mut solved = false;
+                        for cell in cells {
+                            if let Some(v) = self.solve_affine(e, row, cell, trow[j]) {
+                                if self.assign_class(cell, v) {
+                                    solved = true;
+                                    break;
+                                } else {
+                                    self.stats.dead_ends_pinned += 1;
+                                }
+                            }
+                        }
+                        if !solved {
+                            ok = false;
+                            break;
+                        }
+                    }
+                    if ok && self.search(rng, depth_changed) {
+                        return true;
+                    }
+                    self.rollback(mark, &changed_before);
+                    if self.stats.nodes as usize > self.budget_nodes {
+                        return false;
+                    }
+                }
+                self.stats.dead_ends_unsolvable += 1;
+                false
+            }
+        }
+    }
+}
+
+/// Runs the search. `target_instance` = instance cells and their new values (already-equal
+/// entries are allowed); `seeds` = advice cells forced to a value up front (hint attacks).
+/// On success the tables are left in the attacking state and the changed cells are returned; on
+/// failure the tables are restored.
+pub fn attack<F: PrimeField>(
+    tables: &mut Tables<F>,
+    target_instance: &[(usize, usize, F)],
+    seeds: &[((usize, usize), F)],
+    budget: &ArsBudget,
+    rng: &mut ChaCha8Rng,
+) -> (Option<Attack<F>>, ArsStats) {
+    let honest_advice = tables.advice.clone();
+    let honest_instance = tables.instance.clone();
+    let mut total = ArsStats::default();
+    let mut depth = 2usize;
+    for _restart in 0..budget.restarts {
+        // fresh state
+        tables.advice = honest_advice.clone();
+        tables.instance = honest_instance.clone();
+        for (c, r, v) in target_instance {
+            tables.instance[*c][*r] = *v;
+        }
+        let mut ars = Ars::new(tables);
+        ars.budget_nodes = budget.nodes_per_restart;
+        ars.max_changed = depth;
+        // instance changes force their copy classes
+        let mut ok = true;
+        let class_ids: Vec<usize> = target_instance
+            .iter()
+            .filter_map(|(c, r, _)| ars.class_of.get(&CellRef::Instance(*c, *r)).copied())
+            .collect();
+        for id in class_ids {
+            let v = ars.pinned[id].unwrap();
+            let members = ars.classes[id].clone();
+            for m in members {
+                if let CellRef::Advice(c, r) = m {
+                    if ars.t.advice[c][r] != v {
+                        ars.set_adv((c, r), v);
+                    }
+                }
+            }
+        }
+        for (cell, v) in seeds {
+            if !ars.assign_class(*cell, *v) {
+                ok = false;
+            }
+        }
+        let found = ok && ars.search(rng, depth);
+        total.nodes += ars.stats.nodes;
+        total.dead_ends_pinned += ars.stats.dead_ends_pinned;
+        total.dead_ends_unsolvable += ars.stats.dead_ends_unsolvable;
+        total.dead_ends_depth += ars.stats.dead_ends_depth;
+        total.candidates += ars.stats.candidates;
+        let hit_depth = ars.stats.dead_ends_depth > 0;
+        drop(ars);
+        if found {
+            let mut changed = BTreeMap::new();
+            for (c, col) in tables.advice.iter().enumerate() {
+                for (r, v) in col.iter().enumerate() {
+                    if *v != honest_advice[c][r] {
+                        changed.insert((c, r), *v);
+                    }
+                }
+            }
+            return (
+                Some(Attack {
+                    changed,
+                    stats: total.clone(),
+                }),
+                total,
+            );
+        }
+        if hit_depth && depth < budget.max_changed {
+            depth = (depth * 2).min(budget.max_changed);
+        }
+    }
+    tables.advice = honest_advice;
+    tables.instance = honest_instance;
+    (None, total)
+}
